@@ -175,7 +175,11 @@ def run_pipeline(case, data, tmpdir, script_override=None, decisions=None, strat
             logger.propagate = False
             logger.setLevel(logging.INFO)
         for i, (kind, to) in enumerate(zip(case["observers"], case["observer_timeouts"])):
-            if kind == "rec":
+            if kind == "rec" and case.get("stop") and case["stop"].get("by") == "observer" and "stopper" not in holder:
+                o = H.StopperObserver(sched, f"obs{i}", timeout=to).vf_arm(holder, case["stop"]["after_detections"])
+                o.vf_name = f"obs{i}:rec"
+                holder["stopper"] = o
+            elif kind == "rec":
                 o = H.RecObserver(sched, f"obs{i}", timeout=to)
             elif kind == "faulty":
                 o = H.FaultyObserver(sched, f"obs{i}", case.get("observer_dies_at", 1), timeout=to)
@@ -216,7 +220,7 @@ def run_pipeline(case, data, tmpdir, script_override=None, decisions=None, strat
             # that another thread could notice: a message put into an inbox, an event set, or - at the latest - the join
             # it blocks in.  On the pinned tree this is the enqueue of the stop message into the tokenizer's inbox; the rule
             # does not depend on HOW the implementation tells its threads to stop (message, flag, sentinel object).
-            if holder.get("stop_called") and "reads_started_at_stop" not in holder and sched.me().name == "main":
+            if holder.get("stop_called") and "reads_started_at_stop" not in holder and sched.me().name in ("main", holder.get("stopper_name")):
                 holder["reads_started_at_stop"] = reader.vf_reads_started
                 holder["step_at_stop"] = sched.steps
 
@@ -233,6 +237,14 @@ def run_pipeline(case, data, tmpdir, script_override=None, decisions=None, strat
             tw.start_all()
         if script_override is not None:
             script_override(sched, holder)
+        elif case["stop"] is not None and case["stop"].get("by") == "observer":
+            # the stop comes from an observer thread; the main thread calls stop_all() once the tokenizer has ended
+            sched.wait_until(lambda: tw._vf_state.status == DONE)
+            holder["stop_called"] = True
+            tw.stop_all()
+            stop_takes_effect()
+            if saver is not None:
+                saver.join()
         elif case["stop"] is not None:
             k = case["stop"]["after_reads"]
             sched.wait_until(lambda: reader.vf_reads_started >= k or tw._vf_state.status == DONE)
